@@ -22,14 +22,16 @@ import (
 )
 
 type c01RPC struct {
-	Kind     string
-	Reqs     []MsgSpec
-	Resps    []MsgSpec
-	Duplex   bool  `json:",omitempty"` // bidi on inproc: both directions flow concurrently
-	Scribble bool  `json:",omitempty"` // senders overwrite each message right after the send has returned (it is theirs again)
-	CPace    []int `json:",omitempty"` // Gosched counts before client sends
-	HPace    []int `json:",omitempty"` // Gosched counts before handler sends
-	RPace    []int `json:",omitempty"` // Gosched counts before client receives
+	Kind        string
+	Reqs        []MsgSpec
+	Resps       []MsgSpec
+	Duplex      bool  `json:",omitempty"` // bidi on inproc: both directions flow concurrently
+	Scribble    bool  `json:",omitempty"` // senders overwrite each message right after the send has returned (it is theirs again)
+	HeaderFirst bool  `json:",omitempty"` // the client calls Header() before its first receive
+	ReuseDst    bool  `json:",omitempty"` // receivers receive into one and the same message object every time
+	CPace       []int `json:",omitempty"` // Gosched counts before client sends
+	HPace       []int `json:",omitempty"` // Gosched counts before handler sends
+	RPace       []int `json:",omitempty"` // Gosched counts before client receives
 }
 
 type c01Case struct {
@@ -161,8 +163,12 @@ func (r *c01run) service() *Service {
 		if !clientStreaming(kind) {
 			n = 1
 		}
+		hdst := new(pb.Message)
 		for j := 0; n < 0 || j < n; j++ {
 			m := new(pb.Message)
+			if sp.ReuseDst {
+				m = hdst
+			}
 			err := stream.RecvMsg(m)
 			if err == io.EOF && n < 0 {
 				break
@@ -243,9 +249,18 @@ func (r *c01run) client(conn grpc.ClientConnInterface, i int) {
 		send()
 	}
 	want := st.respB
+	if sp.HeaderFirst {
+		if _, err := cs.Header(); err != nil {
+			r.fault("rpc %d (%s): Header(): %v", i, sp.Kind, err)
+		}
+	}
+	cdst := new(pb.Message)
 	for j := 0; ; j++ {
 		pace(sp.RPace, j)
 		m := new(pb.Message)
+		if sp.ReuseDst {
+			m = cdst
+		}
 		err := cs.RecvMsg(m)
 		if err == io.EOF {
 			break
@@ -400,6 +415,8 @@ func genC01RPC(t *rapid.T, carrier string, maxMsg int) c01RPC {
 		rp.Duplex = rapid.Bool().Draw(t, "duplex")
 	}
 	rp.Scribble = rp.Kind != kUnary && rapid.Bool().Draw(t, "scribble")
+	rp.HeaderFirst = rp.Kind != kUnary && rapid.IntRange(0, 3).Draw(t, "headerfirst") == 0
+	rp.ReuseDst = rp.Kind != kUnary && rapid.IntRange(0, 2).Draw(t, "reusedst") == 0
 	rp.CPace = genPace(t, "cpace", nreq)
 	rp.HPace = genPace(t, "hpace", nresp)
 	rp.RPace = genPace(t, "rpace", nresp)
